@@ -84,6 +84,21 @@ def relDelete (before after : Dump) : List (String × Bool) :=
   [("deleted_entity_and_subtree_are_gone", subtreeOk), ("no_dangling_reference", noDangling),
    ("survivors_keep_their_order", sameOrder), ("everything_else_unchanged", unchanged)]
 
+/-- C04 for a deleted FEATURE (features are not records of their own: they are the `feats` field of their tag / multi-tag):
+    exactly one holder lost exactly one entry of its feature list, the others keep their order; everything else is as it was -/
+def relDeleteFeature (before after : Dump) : List (String × Bool) :=
+  let same := before.length == after.length
+  let pairs := before.zip after
+  let changed := pairs.filter fun (b, a) => b != a
+  let one := match changed with
+    | [(b, a)] =>
+      let fb := (Proto.parseList (b.field "feats")).getD []
+      let fa := (Proto.parseList (a.field "feats")).getD []
+      b.id == a.id && fa.length + 1 == fb.length && fa.all (fb.contains ·) && fa == fb.filter (fa.contains ·) &&
+      b.fields.length == a.fields.length && (b.fields.zip a.fields).all fun (x, y) => x.1 == y.1 && (x.1 == "feats" || x.2 == y.2)
+    | _ => false
+  [("deleted_feature_is_gone_from_its_holder_only", same && one)]
+
 def containerKey (kind parentId : String) : String := s!"{kind}@{parentId}"
 
 def slotId (st : StoreSt) (slot : String) : Option String :=
@@ -167,7 +182,8 @@ def handleImpl (ds : DState) (op : String) (args impl : List String) : Option (D
     | _, _ => op
   -- a mutation that the library carried out invalidates what was seen through handles before it
   let note (st : StoreSt) : StoreSt := if readOnlyOps.contains op then st else
-    { st with sinceDump := st.sinceDump ++ [(desc, ok)], lastDeleted := none, goneIds := [], linkObs := if sessionOps.contains op then st.linkObs else [] }
+    -- (a delete / an unlink that answers `false` says it did nothing: judged like a refusal — the next dump must be the last one)
+    { st with sinceDump := st.sinceDump ++ [(desc, if op == "del" || op == "unlink" then impl == ["ok", "1"] else ok)], lastDeleted := none, goneIds := [], linkObs := if sessionOps.contains op then st.linkObs else [] }
   let fin (st : StoreSt) (o : Out) : Option (DState × Out) := some ({ ds with store := st }, o)
   match op with
   | "fopen" | "fclose" | "freopen" | "fflush" | "fdrop" | "fisopen" | "fbytes" =>
@@ -224,8 +240,20 @@ def handleImpl (ds : DState) (op : String) (args impl : List String) : Option (D
       | [_, _, "idof", k] => some k
       | [kind, par, "name", k] => (st.slotInfo.find? fun e => e.2 == (kind, par, k)).map (·.1)
       | _ => none
+    -- C04: a delete by HANDLE is about the entity behind the handle: when that entity is not a child of the parent asked (it lives
+    -- under another parent and merely has the name of a child), nothing may be deleted
+    let foreign : Bool := match args with
+      | [_, par, "handle", k] =>
+        (match st.slotInfo.find? (·.1 == k) with
+         | some (_, (_, madeIn, _)) =>
+           (match slotId st madeIn, slotId st par with
+            | some a, some b => a != b && a.length == 36 && b.length == 36
+            | _, _ => madeIn == "$F" && par != "$F" || madeIn != "$F" && par == "$F")
+         | none => false)
+      | _ => false
+    let tag := s!"{op}.{(args.head?).getD ""}.{if ok then (impl[1]?).getD "ok" else (impl[1]?).getD "err"}{if foreign then ".foreign" else ""}"
     let st := { (note st) with lastDeleted := if impl == ["ok", "1"] then victim else none }
-    fin st (.ok s!"{op}.{(args.head?).getD ""}.{if ok then (impl[1]?).getD "ok" else (impl[1]?).getD "err"}")
+    fin st (judge tag impl impl (if foreign && ok then [("delete_by_handle_of_another_parents_child_deletes_nothing", impl == ["ok", "0"])] else []))
   | "link" | "unlink" | "single" | "set" | "setlinks" =>
     fin (note st) (.ok s!"{op}.{(args.head?).getD ""}.{if ok then (impl[1]?).getD "ok" else (impl[1]?).getD "err"}")
   | "xcheck" =>
@@ -282,6 +310,7 @@ def handleImpl (ds : DState) (op : String) (args impl : List String) : Option (D
           if since.isEmpty then []
           else if since.all (fun e => !e.2) then [("rejected_operation_leaves_no_trace", prev == d)]
           else if since.all (fun e => sessionOps.contains e.1 && e.2) then [("reopen_exposes_the_same_tree", prev == d)]
+          else if since.length == 1 && since.all (fun e => e.1 == "del.R" && e.2) then relDeleteFeature prev d
           else if since.length == 1 && since.all (fun e => e.1.startsWith "del." && e.2) then relDelete prev d
           else []
       let tag := if since.isEmpty then "dump.first" else if since.all (fun e => !e.2) then "dump.after_reject:" ++ ",".intercalate (since.map (·.1))
